@@ -2,7 +2,7 @@ import Rg.Proofs.TypeMatch
 /-!
 # Soundness of the matcher as it stands
 
-Whenever `matchIdentical` answers `true`, the final binding tables are an assignment under which the pattern
+Whenever `matchIdenticalAsIs` answers `true`, the final binding tables are an assignment under which the pattern
 denotes the type (`SpecC10.Denotes`, with the code's own reading of types `Rules.code` and identity
 `xtypes.Identical`).  Key invariant: the tables only grow (`MState.le`) — also through failed look-aheads,
 whose stale bindings can therefore only make later comparisons stricter, never wrong.
@@ -141,10 +141,10 @@ macro "triv_false" : tactic => `(tactic| (
 
 mutual
 theorem sound : ∀ (p : Pat) (st : MState) (t : Ty) (b : Bool) (st' : MState),
-    matchIdentical fx st p t = (b, st') →
+    matchIdenticalAsIs fx st p t = (b, st') →
     MState.le st st' ∧ (b = true → ∀ σ, MState.le st' σ → Denotes (tid fx) Rules.code σ p t)
   | .var name, st, t, b, st', h => by
-    unfold matchIdentical at h
+    unfold matchIdenticalAsIs at h
     by_cases hn : name = "_"
     · subst hn
       simp only [beq_self_eq_true, if_true, Prod.mk.injEq] at h
@@ -174,29 +174,29 @@ theorem sound : ∀ (p : Pat) (st : MState) (t : Ty) (b : Bool) (st' : MState),
           obtain ⟨rfl, rfl⟩ := h
           exact ⟨MState.le_refl _, fun hb σ hσ => .var name y t (hσ.1 name y hl) hb⟩
   | .builtin bt, st, t, b, st', h => by
-    unfold matchIdentical at h
+    unfold matchIdenticalAsIs at h
     simp only [Prod.mk.injEq] at h
     obtain ⟨rfl, rfl⟩ := h
     exact ⟨MState.le_refl _, fun hb σ _ => .builtin bt t hb⟩
   | .varSeq, st, t, b, st', h => by
-    unfold matchIdentical at h
+    unfold matchIdenticalAsIs at h
     triv_false
   | .ptr e, st, t, b, st', h => by
-    unfold matchIdentical at h
+    unfold matchIdenticalAsIs at h
     cases t <;> simp only at h
     case ptr a =>
       obtain ⟨le1, d1⟩ := sound e st a b st' h
       exact ⟨le1, fun hb σ hσ => .ptr e _ a (unaliasTarget_code _) (d1 hb σ hσ)⟩
     all_goals triv_false
   | .slice e, st, t, b, st', h => by
-    unfold matchIdentical at h
+    unfold matchIdenticalAsIs at h
     cases t <;> simp only at h
     case slice a =>
       obtain ⟨le1, d1⟩ := sound e st a b st' h
       exact ⟨le1, fun hb σ hσ => .slice e _ a (unaliasTarget_code _) (d1 hb σ hσ)⟩
     all_goals triv_false
   | .arrayVar v e, st, t, b, st', h => by
-    unfold matchIdentical at h
+    unfold matchIdenticalAsIs at h
     cases t <;> simp only at h
     case array n a =>
       by_cases hv : v = "_"
@@ -228,7 +228,7 @@ theorem sound : ∀ (p : Pat) (st : MState) (t : Ty) (b : Bool) (st' : MState),
             (hσ.2 v n (le1.2 v n (lookupI_bind_self st v n))) (d1 hb σ hσ)
     all_goals triv_false
   | .arrayLit len e, st, t, b, st', h => by
-    unfold matchIdentical at h
+    unfold matchIdenticalAsIs at h
     cases t <;> simp only at h
     case array n a =>
       by_cases hlen : len = n
@@ -241,10 +241,10 @@ theorem sound : ∀ (p : Pat) (st : MState) (t : Ty) (b : Bool) (st' : MState),
         triv_false
     all_goals triv_false
   | .map k v, st, t, b, st', h => by
-    unfold matchIdentical at h
+    unfold matchIdenticalAsIs at h
     cases t <;> simp only at h
     case map tk tv =>
-      rcases hk : matchIdentical fx st k tk with ⟨bk, s1⟩
+      rcases hk : matchIdenticalAsIs fx st k tk with ⟨bk, s1⟩
       rw [hk] at h
       obtain ⟨le1, d1⟩ := sound k st tk bk s1 hk
       cases bk
@@ -257,7 +257,7 @@ theorem sound : ∀ (p : Pat) (st : MState) (t : Ty) (b : Bool) (st' : MState),
           .map k v _ tk tv (unaliasTarget_code _) (d1 rfl σ (MState.le_trans le2 hσ)) (d2 hb σ hσ)⟩
     all_goals triv_false
   | .chan dir e, st, t, b, st', h => by
-    unfold matchIdentical at h
+    unfold matchIdenticalAsIs at h
     cases t <;> simp only at h
     case chan d a =>
       by_cases hd : dir = d
@@ -270,7 +270,7 @@ theorem sound : ∀ (p : Pat) (st : MState) (t : Ty) (b : Bool) (st' : MState),
         triv_false
     all_goals triv_false
   | .named pkgPath typeName, st, t, b, st', h => by
-    unfold matchIdentical at h
+    unfold matchIdenticalAsIs at h
     cases t <;> simp only at h
     case named u o p n x l ts =>
       cases p with
@@ -285,13 +285,13 @@ theorem sound : ∀ (p : Pat) (st : MState) (t : Ty) (b : Bool) (st' : MState),
           (by simp [Rules.code]) (by simp [Rules.code])
     all_goals triv_false
   | .funcNoSeq pps prs, st, t, b, st', h => by
-    unfold matchIdentical at h
+    unfold matchIdenticalAsIs at h
     cases t <;> simp only at h
     case sig v tps params results =>
       by_cases h1 : (tupleElems params).length = pps.length
       · by_cases h2 : (tupleElems results).length = prs.length
         · simp only [h1, h2, bne_self_eq_false, Bool.false_eq_true, if_false] at h
-          rcases hp : matchAll fx st pps (tupleElems params) with ⟨bp, s1⟩
+          rcases hp : matchAllAsIs fx st pps (tupleElems params) with ⟨bp, s1⟩
           rw [hp] at h
           obtain ⟨le1, d1⟩ := soundAll pps st (tupleElems params) bp s1 hp
           cases bp
@@ -313,10 +313,10 @@ theorem sound : ∀ (p : Pat) (st : MState) (t : Ty) (b : Bool) (st' : MState),
         triv_false
     all_goals triv_false
   | .func pps prs, st, t, b, st', h => by
-    unfold matchIdentical at h
+    unfold matchIdenticalAsIs at h
     cases t <;> simp only at h
     case sig v tps params results =>
-      rcases hp : matchSubs fx st pps (tupleElems params) with ⟨bp, s1⟩
+      rcases hp : matchSubsAsIs fx st pps (tupleElems params) with ⟨bp, s1⟩
       rw [hp] at h
       obtain ⟨le1, d1⟩ := soundSubs pps st (tupleElems params) bp s1 hp
       cases bp
@@ -332,7 +332,7 @@ theorem sound : ∀ (p : Pat) (st : MState) (t : Ty) (b : Bool) (st' : MState),
           (by rw [tupleElems_eq]; exact d2 hb σ hσ)
     all_goals triv_false
   | .structNoSeq subs, st, t, b, st', h => by
-    unfold matchIdentical at h
+    unfold matchIdenticalAsIs at h
     cases t <;> simp only at h
     case struct fs =>
       by_cases h1 : fs.length = subs.length
@@ -346,14 +346,14 @@ theorem sound : ∀ (p : Pat) (st : MState) (t : Ty) (b : Bool) (st' : MState),
         triv_false
     all_goals triv_false
   | .struct subs, st, t, b, st', h => by
-    unfold matchIdentical at h
+    unfold matchIdenticalAsIs at h
     cases t <;> simp only at h
     case struct fs =>
       obtain ⟨le1, d1⟩ := soundSubs subs st (fieldTypes fs) b st' h
       exact ⟨le1, fun hb σ hσ => .struct subs _ fs (unaliasTarget_code _) (by rw [fieldTypes_eq]; exact d1 hb σ hσ)⟩
     all_goals triv_false
   | .anyIface, st, t, b, st', h => by
-    unfold matchIdentical at h
+    unfold matchIdenticalAsIs at h
     cases t <;> simp only at h
     case iface a c ms es =>
       simp only [Prod.mk.injEq] at h
@@ -361,11 +361,11 @@ theorem sound : ∀ (p : Pat) (st : MState) (t : Ty) (b : Bool) (st' : MState),
       exact ⟨MState.le_refl _, fun _ σ _ => .anyIface _ a c ms es (unaliasTarget_code _)⟩
     all_goals triv_false
 theorem soundAll : ∀ (ps : List Pat) (st : MState) (ts : List Ty) (b : Bool) (st' : MState),
-    matchAll fx st ps ts = (b, st') →
+    matchAllAsIs fx st ps ts = (b, st') →
     MState.le st st' ∧ (b = true → ps.length = ts.length → ∀ σ, MState.le st' σ →
       DenotesSeq (tid fx) Rules.code σ ps ts)
   | [], st, ts, b, st', h => by
-    unfold matchAll at h
+    unfold matchAllAsIs at h
     simp only [Prod.mk.injEq] at h
     obtain ⟨rfl, rfl⟩ := h
     refine ⟨MState.le_refl _, fun _ hl σ _ => ?_⟩
@@ -373,13 +373,13 @@ theorem soundAll : ∀ (ps : List Pat) (st : MState) (ts : List Ty) (b : Bool) (
     | nil => exact .nil
     | cons _ _ => simp at hl
   | p :: ps, st, [], b, st', h => by
-    unfold matchAll at h
+    unfold matchAllAsIs at h
     simp only [Prod.mk.injEq] at h
     obtain ⟨rfl, rfl⟩ := h
     exact ⟨MState.le_refl _, fun _ hl => by simp at hl⟩
   | p :: ps, st, t :: ts, b, st', h => by
-    unfold matchAll at h
-    rcases hp : matchIdentical fx st p t with ⟨bp, s1⟩
+    unfold matchAllAsIs at h
+    rcases hp : matchIdenticalAsIs fx st p t with ⟨bp, s1⟩
     rw [hp] at h
     obtain ⟨le1, d1⟩ := sound p st t bp s1 hp
     cases bp
@@ -391,10 +391,10 @@ theorem soundAll : ∀ (ps : List Pat) (st : MState) (ts : List Ty) (b : Bool) (
       refine ⟨MState.le_trans le1 le2, fun hb hl σ hσ => ?_⟩
       exact .cons p ps t ts (d1 rfl σ (MState.le_trans le2 hσ)) (d2 hb (by simpa using hl) σ hσ)
 theorem soundSubs : ∀ (subs : List Pat) (st : MState) (fields : List Ty) (b : Bool) (st' : MState),
-    matchSubs fx st subs fields = (b, st') →
+    matchSubsAsIs fx st subs fields = (b, st') →
     MState.le st st' ∧ (b = true → ∀ σ, MState.le st' σ → DenotesSeq (tid fx) Rules.code σ subs fields)
   | [], st, fields, b, st', h => by
-    unfold matchSubs at h
+    unfold matchSubsAsIs at h
     simp only [Prod.mk.injEq] at h
     obtain ⟨rfl, rfl⟩ := h
     refine ⟨MState.le_refl _, fun hb σ _ => ?_⟩
@@ -402,14 +402,14 @@ theorem soundSubs : ∀ (subs : List Pat) (st : MState) (fields : List Ty) (b : 
     | nil => exact .nil
     | cons _ _ => simp at hb
   | [.varSeq], st, fields, b, st', h => by
-    unfold matchSubs at h
+    unfold matchSubsAsIs at h
     simp only [Prod.mk.injEq] at h
     obtain ⟨rfl, rfl⟩ := h
     refine ⟨MState.le_refl _, fun _ σ _ => .run [] fields fields.length ?_⟩
     simp only [List.drop_length]
     exact .nil
   | .varSeq :: next :: rest', st, fields, b, st', h => by
-    unfold matchSubs at h
+    unfold matchSubsAsIs at h
     simp only at h
     obtain ⟨le1, d1⟩ := scanSeq_sound (fx := fx) (next := next) (rest' := rest')
       (fun s t b s' hh => sound next s t b s' hh)
@@ -426,12 +426,12 @@ theorem soundSubs : ∀ (subs : List Pat) (st : MState) (fields : List Ty) (b : 
   | .var x :: rest, st, fields, b, st', h | .slice x :: rest, st, fields, b, st', h
   | .anyIface :: rest, st, fields, b, st', h
   | .structNoSeq x :: rest, st, fields, b, st', h | .struct x :: rest, st, fields, b, st', h => by
-    unfold matchSubs at h
+    unfold matchSubsAsIs at h
     cases fields with
     | nil => simp only at h; triv_false
     | cons f fs =>
       simp only at h
-      rcases hp : matchIdentical fx st _ f with ⟨bp, s1⟩
+      rcases hp : matchIdenticalAsIs fx st _ f with ⟨bp, s1⟩
       rw [hp] at h
       obtain ⟨le1, d1⟩ := sound _ st f bp s1 hp
       cases bp
@@ -446,12 +446,12 @@ theorem soundSubs : ∀ (subs : List Pat) (st : MState) (fields : List Ty) (b : 
   | .map x y :: rest, st, fields, b, st', h | .chan x y :: rest, st, fields, b, st', h
   | .funcNoSeq x y :: rest, st, fields, b, st', h | .func x y :: rest, st, fields, b, st', h
   | .named x y :: rest, st, fields, b, st', h => by
-    unfold matchSubs at h
+    unfold matchSubsAsIs at h
     cases fields with
     | nil => simp only at h; triv_false
     | cons f fs =>
       simp only at h
-      rcases hp : matchIdentical fx st _ f with ⟨bp, s1⟩
+      rcases hp : matchIdenticalAsIs fx st _ f with ⟨bp, s1⟩
       rw [hp] at h
       obtain ⟨le1, d1⟩ := sound _ st f bp s1 hp
       cases bp
